@@ -162,11 +162,17 @@ def raw_jobs(project_path):
     return out
 
 
+# payload names the harness itself creates although they look like backups (ordinary data as far as signac goes)
+USER_TILDE_NAMES = {"notes.txt~", "arch~", "h.dat~"}
+
+
 def leftovers(root):
     """Temporary / backup files anywhere below root ('*~', '._*')."""
     bad = []
     for dirpath, dirnames, filenames in os.walk(root):
         for fn in filenames + dirnames:
+            if fn in USER_TILDE_NAMES:
+                continue
             if fn.endswith("~") or fn.startswith("._"):
                 bad.append(os.path.relpath(os.path.join(dirpath, fn), root))
     return sorted(bad)
